@@ -7,6 +7,18 @@ From PF Require Import Geom.Vec Geom.AlgebraSpec Geom.AlgebraInst Geom.AlgebraQu
 From PFGen Require Quat.
 Local Open Scope R_scope.
 Ltac vu := vec_unfold; vec_unfold; carrier_R.
+(* unfold the generated code of the goal (whatever helpers / temporaries it is written with) but keep the
+   anchored entry points Rotate and FromTheta folded, so that the lemmas about them still apply *)
+Ltac gen_unfold_keep :=
+  let ROT := fresh "ROT" in let HROT := fresh "HROT" in
+  let FT := fresh "FT" in let HFT := fresh "HFT" in
+  remember (@Quat.Quaternion_Rotate R R_carrier) as ROT eqn:HROT;
+  remember (@Quat.FromTheta R R_carrier) as FT eqn:HFT;
+  gen_unfold; subst ROT; subst FT.
+Ltac gen_unfold_keep_rot :=
+  let ROT := fresh "ROT" in let HROT := fresh "HROT" in
+  remember (@Quat.Quaternion_Rotate R R_carrier) as ROT eqn:HROT;
+  gen_unfold; subst ROT.
 Lemma sqrt_pos_arg x : 0 < sqrt x -> 0 < x.
 Proof.
   intros H. destruct (Rle_dec x 0) as [Hx|Hx]; [|lra].
@@ -37,7 +49,7 @@ Qed.
 Lemma from_theta_pi_flips (c a : vec3 R) : 0 < v3_dot c c -> v3_dot c a = 0 ->
   Quat.Quaternion_Rotate (Quat.FromTheta cpi (v3_normalized c)) a = v3_neg a.
 Proof.
-  intros Hc Hp. unfold Quat.FromTheta. carrier_R.
+  intros Hc Hp. gen_unfold_keep_rot. carrier_R.
   replace (PI / 2) with (PI / 2) by reflexivity.
   change (IZR 2) with 2. rewrite sin_PI2, cos_PI2.
   rewrite (normalized_of_unit _ (normalized_dot c Hc)).
@@ -52,7 +64,7 @@ Theorem rotation_to_antiparallel (a b : vec3 R) :
   v3_dot a a = 1 -> v3_dot a b < -0.999999 ->
   Quat.Quaternion_Rotate (Quat.RotationTo a b) a = v3_neg a.
 Proof.
-  intros Ha Hd. unfold Quat.RotationTo. cbv zeta.
+  intros Ha Hd. gen_unfold_keep.
   assert (E1 : (v3_dot a b <? cofQ (-999999) 1000000)%C = true) by (apply Rltb_true; carrier_R; lra).
   rewrite E1. clear E1.
   destruct (v3_length (v3_cross v3_right a) <? cofQ 1 1000000)%C eqn:E.
@@ -74,7 +86,7 @@ Qed.
 Theorem rotation_to_parallel (a b : vec3 R) :
   0.999999 < v3_dot a b -> Quat.Quaternion_Rotate (Quat.RotationTo a b) a = a.
 Proof.
-  intros Hd. unfold Quat.RotationTo. cbv zeta.
+  intros Hd. gen_unfold_keep.
   assert (E1 : (v3_dot a b <? cofQ (-999999) 1000000)%C = false) by (apply Rltb_false; carrier_R; lra).
   assert (E2 : (cofQ 999999 1000000 <? v3_dot a b)%C = true) by (apply Rltb_true; carrier_R; lra).
   rewrite E1, E2. destruct a as [x y z]. quat_unfold. carrier_R. apply v3_eq'; ring.
@@ -89,11 +101,10 @@ Theorem rotation_to_maps (a b : vec3 R) :
   Quat.Quaternion_Rotate (Quat.RotationTo a b) a = b.
 Proof.
   intros Ha Hb [Hlo Hhi].
-  unfold Quat.RotationTo. cbv zeta.
+  gen_unfold_keep.
   assert (E1 : (v3_dot a b <? cofQ (-999999) 1000000)%C = false) by (apply Rltb_false; carrier_R; lra).
   assert (E2 : (cofQ 999999 1000000 <? v3_dot a b)%C = false) by (apply Rltb_false; carrier_R; lra).
   rewrite E1, E2. clear E1 E2.
-  unfold Quat.Quaternion_Normalize, Quat.New. cbv zeta. cbn [Quat.Quaternion_v Quat.Quaternion_w].
   unfold v4_normalized, v4_div_by_constant, v4_new, v3_new. cbn [v4x v4y v4z v4w].
   set (L := v4_length _).
   assert (HL2 : L * L = 2 * (1 + v3_dot a b)).
@@ -123,7 +134,7 @@ Qed.
 (* FromTheta normalises its axis: any non-zero axis and any angle give a unit quaternion ... *)
 Theorem from_theta_unit (theta : R) (v : vec3 R) : 0 < v3_dot v v -> qnorm2 (Quat.FromTheta theta v) = 1.
 Proof.
-  intros Hv. pose proof (normalized_dot v Hv) as Hn. unfold Quat.FromTheta, qnorm2.
+  intros Hv. pose proof (normalized_dot v Hv) as Hn. gen_unfold.
   cbn [Quat.Quaternion_v Quat.Quaternion_w]. set (n := v3_normalized v) in *. carrier_R.
   set (s := sin _). set (c := cos _). pose proof (sin2_cos2 (theta / IZR 2)) as T. unfold Rsqr in T. fold s c in T.
   destruct n as [n1 n2 n3]. vu.
@@ -134,14 +145,14 @@ Qed.
 Theorem from_theta_fixes_axis (theta : R) (v : vec3 R) : 0 < v3_dot v v ->
   Quat.Quaternion_Rotate (Quat.FromTheta theta v) v = v.
 Proof.
-  intros Hv. pose proof (normalized_dot v Hv) as Hn. unfold Quat.FromTheta.
+  intros Hv. pose proof (normalized_dot v Hv) as Hn. gen_unfold_keep_rot.
   assert (Hk : exists k, v = v3_scale (v3_normalized v) k).
   { exists (v3_length v). destruct v as [x y z]. vu. set (l := sqrt _) in *.
     assert (Hl : l * l = x * x + y * y + z * z) by (apply sqrt_sqrt; lra).
     assert (l <> 0) by (intro E; rewrite E in Hl; lra). apply v3_eq'; field; assumption. }
   destruct Hk as [k Hk]. set (n := v3_normalized v) in *. carrier_R.
   set (s := sin _). set (c := cos _). pose proof (sin2_cos2 (theta / IZR 2)) as T. unfold Rsqr in T. fold s c in T.
-  rewrite Hk. clearbody n. destruct n as [n1 n2 n3]. quat_unfold. carrier_R. unfold v3_dot in Hn. cbn [v3x v3y v3z] in Hn. carrier_R.
+  rewrite Hk. clearbody n s c. destruct n as [n1 n2 n3]. quat_unfold. carrier_R. unfold v3_dot in Hn. cbn [v3x v3y v3z] in Hn. carrier_R.
   apply v3_eq'.
   - transitivity (n1 * k * ((n1 * n1 + n2 * n2 + n3 * n3) * (s * s) + c * c)); [ring|]. rewrite Hn. replace (1 * (s * s) + c * c) with 1 by lra. ring.
   - transitivity (n2 * k * ((n1 * n1 + n2 * n2 + n3 * n3) * (s * s) + c * c)); [ring|]. rewrite Hn. replace (1 * (s * s) + c * c) with 1 by lra. ring.
